@@ -241,7 +241,7 @@ func closedFlagSetBefore(p *core.Prog, cl core.ChanOp) string {
 					}
 					for j, q := range g.Params {
 						if q == prm && j < len(ci.Common().Args) {
-							if fa, isFA := ci.Common().Args[j].(*ssa.FieldAddr); isFA && core.Path(fa.X) == cl.Base {
+							if fa, isFA := ci.Common().Args[j].(*ssa.FieldAddr); isFA && core.Path(core.FieldOwner(fa)) == cl.Base {
 								found = core.FieldName(fa.X.Type(), fa.Field)
 							}
 						}
@@ -308,13 +308,13 @@ func flagSetBeforeIn(fn *ssa.Function, at ssa.Instruction, base string) string {
 		}
 		switch x := ins.(type) {
 		case *ssa.Store:
-			if fa, ok := x.Addr.(*ssa.FieldAddr); ok && core.Path(fa.X) == cl.Base && isTrueConst(x.Val) {
+			if fa, ok := x.Addr.(*ssa.FieldAddr); ok && core.Path(core.FieldOwner(fa)) == cl.Base && isTrueConst(x.Val) {
 				found = core.FieldName(fa.X.Type(), fa.Field)
 			}
 		case *ssa.Call:
 			g := core.Callee(&x.Call)
 			if g != nil && core.FuncName(g) == "fpgo.AtomBool.Set" && len(x.Call.Args) == 2 && isTrueConst(x.Call.Args[1]) {
-				if fa, ok := x.Call.Args[0].(*ssa.FieldAddr); ok && core.Path(fa.X) == cl.Base {
+				if fa, ok := x.Call.Args[0].(*ssa.FieldAddr); ok && core.Path(core.FieldOwner(fa)) == cl.Base {
 					found = core.FieldName(fa.X.Type(), fa.Field)
 				}
 			}
